@@ -36,7 +36,47 @@ pub fn base_document(rng: &mut Rng) -> Vec<u8> {
 pub fn mutate_once(rng: &mut Rng, b: &mut Vec<u8>, other: &[u8]) -> &'static str {
     let len = b.len();
     let pos = |rng: &mut Rng, len: usize| if len == 0 { 0 } else { rng.below(len + 1) };
-    match rng.below(12) {
+    match rng.below(14) {
+        12 => {
+            // an attribute written twice, byte for byte (` name="value"` right after itself)
+            let mut spans: Vec<(usize, usize)> = Vec::new();
+            let mut i = 0;
+            while i < len {
+                if b[i] == b' ' {
+                    let mut j = i + 1;
+                    while j < len && !matches!(b[j], b'=' | b' ' | b'>' | b'<' | b'/') {
+                        j += 1;
+                    }
+                    if j > i + 1 && j + 1 < len && b[j] == b'=' && matches!(b[j + 1], b'"' | b'\'') {
+                        let q = b[j + 1];
+                        if let Some(e) = b[j + 2..].iter().position(|c| *c == q) {
+                            spans.push((i, j + 2 + e + 1));
+                        }
+                    }
+                }
+                i += 1;
+            }
+            if !spans.is_empty() {
+                let (s0, e0) = *rng.pick(&spans);
+                let region: Vec<u8> = b[s0..e0].to_vec();
+                b.splice(e0..e0, region);
+            }
+            "duplicate_attribute"
+        }
+        13 => {
+            // a multi-byte character damaged the way lossy decoders forgive: replaced by 0xFF, or cut short
+            let starts: Vec<usize> = (0..len).filter(|i| b[*i] >= 0xC2 && b[*i] < 0xF5).collect();
+            if !starts.is_empty() {
+                let p = *rng.pick(&starts);
+                let w = if b[p] >= 0xF0 { 4 } else if b[p] >= 0xE0 { 3 } else { 2 }.min(len - p);
+                if rng.pct(50) {
+                    b.splice(p..p + w, [0xFFu8]);
+                } else {
+                    b.drain(p + w - 1..p + w);
+                }
+            }
+            "damage_multibyte_char"
+        }
         0 | 1 => {
             let t = *rng.pick(TOKENS);
             let p = pos(rng, len);
@@ -320,6 +360,8 @@ pub fn random_option_string(rng: &mut Rng) -> String {
         "", "Serialize, Deserialize", "Debug", "Debug, Clone, PartialEq", " ", "\"", "\n", "Привет", ")]\n#[x(", "@", "$text", "$value",
         "text", "attr_", "xmlns:", "\\", "{}", "{", "}", "a b", "\0", "🦀",
         "serde::Serialize, serde::Deserialize", "Clone, serde::Deserialize", "::std::fmt::Debug", "PartialEq, Eq, Hash, Default",
+        // what people paste: the whole attribute, or pieces of it
+        "#[derive(Debug, Clone)]", "#[derive(Debug)]\n#[serde(deny_unknown_fields)]", "derive(Debug)", "#[derive)(", ")(", "#[", ")]", "(Debug)", "#[derive(]", "Debug,", ", Debug", "Debug,,Clone",
     ];
     let base = rng.pick(S).to_string();
     match rng.below(12) {
